@@ -108,6 +108,8 @@ pub enum Kind {
   Behavior,
   /// pipeline over hot inputs built with the threads builder
   Pipe(Chain),
+  /// one `hot[0].share_threads()` built once; every subscription is a clone of it
+  Shared,
 }
 
 #[derive(Clone, Debug, PartialEq, Eq, Hash)]
@@ -146,8 +148,13 @@ pub fn run_scen(s: &Scen, seed: u64, strategy: Strategy) -> Outcome {
   let cx = threads::Ctx { hot: hot.clone(), stash: StashT::default(), sched: pool.scheduler(), log: log.clone(), base: Instant::now() };
   let subs: Arc<Mutex<Vec<Option<BoxSubscriptionThreads>>>> = Arc::new(Mutex::new(vec![]));
   let next_probe = Arc::new(AtomicUsize::new(1));
+  let shared = {
+    let b: rxrust::ops::box_it::BoxOpThreads<V, E> = hot[0].clone().box_it();
+    Arc::new(Mutex::new(b.share_threads()))
+  };
   let subscribe = {
     let (kind, cx, log, subs, next_probe, hot, beh) = (s.kind.clone(), cx.clone(), log.clone(), subs.clone(), next_probe.clone(), hot.clone(), beh.clone());
+    let shared = shared.clone();
     move || {
       let id = next_probe.fetch_add(1, Ordering::SeqCst) as u32;
       let p = Probe::new(id, &log);
@@ -155,6 +162,10 @@ pub fn run_scen(s: &Scen, seed: u64, strategy: Strategy) -> Outcome {
         Kind::Subject => BoxSubscriptionThreads::new(hot[0].clone().actual_subscribe(p)),
         Kind::Behavior => BoxSubscriptionThreads::new(beh.clone().actual_subscribe(p)),
         Kind::Pipe(c) => BoxSubscriptionThreads::new(threads::build(c, &cx).actual_subscribe(p)),
+        Kind::Shared => {
+          let sh = shared.lock().unwrap_or_else(|e| e.into_inner()).clone();
+          BoxSubscriptionThreads::new(sh.actual_subscribe(p))
+        }
       };
       let mut g = subs.lock().unwrap_or_else(|e| e.into_inner());
       g.push(Some(u));
@@ -365,6 +376,14 @@ pub fn must_receive(o: &Outcome) -> Option<(String, serde_json::Value)> {
     }
   }
   None
+}
+
+/// C11 (thread part): several subscribers on one share_threads() over a hot
+/// subject. While at least one subscriber stays the connection stays, so the
+/// interval oracle of the plain subject applies to every subscription; all
+/// subscribers see one common order; nothing arrives after unsubscribe().
+pub fn share_oracle(o: &Outcome) -> Option<(String, serde_json::Value)> {
+  must_receive(o).or_else(|| common_order(o)).or_else(|| after_unsub(o))
 }
 
 /// C02: nothing *begins* on a probe after its unsubscribe() returned
@@ -609,6 +628,33 @@ pub fn random_scen(r: &mut Rng, family: usize) -> Scen {
       }
       Scen { name: "merge_all_threads", kind: Kind::Pipe(chain), n_hot: nt, initial_subs: 1, threads, workers: 0, worker_spins: 0 }
     }
+    20 => {
+      // several subscribers on one share_threads(): emissions race with
+      // subscribers leaving and joining (the ref-count teardown path)
+      let nt = 2 + r.below(2);
+      let initial = 2 + r.below(2);
+      // re-joining after the subscriber count dropped to zero is unspecified:
+      // either subscription #0 stays for good, or nobody joins later
+      let keep_first = r.chance(3, 4);
+      let mut threads: Vec<Vec<TOp>> = (0..nt)
+        .map(|_| {
+          let n = 1 + r.below(4);
+          (0..n)
+            .map(|_| match r.below(10) {
+              0 | 1 | 2 if keep_first => TOp::Unsub(1 + r.below(initial)),
+              0 | 1 | 2 => TOp::Unsub(r.below(initial)),
+              3 if keep_first => TOp::Subscribe,
+              _ => TOp::Next(0),
+            })
+            .collect()
+        })
+        .collect();
+      if r.chance(1, 4) {
+        let t = r.below(nt);
+        threads[t].push(if r.chance(1, 2) { TOp::Complete(0) } else { TOp::Error(0) });
+      }
+      Scen { name: "share_threads[multi]", kind: Kind::Shared, n_hot: 1, initial_subs: initial, threads, workers: 0, worker_spins: 0 }
+    }
     10 => Scen {
       name: "finalize_threads",
       kind: Kind::Pipe(Chain::new(Src::Hot(0), vec![Op::Finalize(600)])),
@@ -672,7 +718,7 @@ pub fn random_scen(r: &mut Rng, family: usize) -> Scen {
   }
 }
 
-pub const FAMILIES: usize = 20;
+pub const FAMILIES: usize = 21;
 
 pub fn strategy_for(r: &mut Rng) -> Strategy {
   match r.below(4) {
@@ -898,12 +944,17 @@ pub fn run_scen_free_mode(s: &Scen, mode: u8, seed: u64) -> Outcome {
   let beh = BehaviorSubject::<V, SubjectThreads<V, E>>::new(V::I(5));
   let cx = threads::Ctx { hot: hot.clone(), stash: StashT::default(), sched: pool.scheduler(), log: log.clone(), base: Instant::now() };
   let subs: Arc<Mutex<Vec<Option<BoxSubscriptionThreads>>>> = Arc::new(Mutex::new(vec![]));
+  let shared = {
+    let b: rxrust::ops::box_it::BoxOpThreads<V, E> = hot[0].clone().box_it();
+    b.share_threads()
+  };
   let mk_sub = |id: u32| {
     let p = Probe::new(id, &log);
     let u = match &s.kind {
       Kind::Subject => BoxSubscriptionThreads::new(hot[0].clone().actual_subscribe(p)),
       Kind::Behavior => BoxSubscriptionThreads::new(beh.clone().actual_subscribe(p)),
       Kind::Pipe(c) => BoxSubscriptionThreads::new(threads::build(c, &cx).actual_subscribe(p)),
+      Kind::Shared => BoxSubscriptionThreads::new(shared.clone().actual_subscribe(p)),
     };
     let mut g = subs.lock().unwrap();
     g.push(Some(u));
